@@ -101,7 +101,7 @@ theorem range_step {fp fn : List ℚ → ℚ} {gains losses : List ℚ} {s : RSI
     ∃ v s' g l, s.vals k = .ok ([v], s') ∧ 0 ≤ v.value ∧ v.value ≤ 1 ∧
       Realises fp s'.posma (gains ++ [g]) ∧ Realises fn s'.negma (losses ++ [l]) ∧
       (∀ x ∈ gains ++ [g], 0 ≤ x) ∧ (∀ x ∈ losses ++ [l], x ≤ 0) := by
-  obtain ⟨v, s', hv, hval, r1, r2, _, _⟩ := vals_spec k hp hn
+  obtain ⟨v, s', hv, hval, v0, v1, r1, r2, _, _⟩ := vals_spec k hp hn
   set g := smax (k.source s.cfg.source - s.previous_input) 0 with hgd
   set l := smin (k.source s.cfg.source - s.previous_input) 0 with hld
   have hg0 : 0 ≤ g := by rw [hgd]; unfold smax; split <;> linarith
@@ -124,8 +124,7 @@ theorem range_step {fp fn : List ℚ → ℚ} {gains losses : List ℚ} {s : RSI
       · exact le_refl _
       · exact hl' x hx)
     linarith
-  have hr := value_range _ _ hpos hneg
-  exact ⟨v, s', g, l, hv, by rw [hval]; exact hr.1, by rw [hval]; exact hr.2, r1, r2, hg', hl'⟩
+  exact ⟨v, s', g, l, hv, v0, v1, r1, r2, hg', hl'⟩
 end RSI
 
 end Yata.Ind
